@@ -253,8 +253,64 @@ def task_perms(args):
     return n, out, classes
 
 
+def corpus_updates():
+    """UPDATE bodies among the byte strings of the unit tests (incl. BGP-LS, EVPN, PMSI ...): (body, raw attributes)"""
+    from .. import seeds
+    out = []
+    for s in seeds.unit_test_bytes():
+        for body in (s, s[19:] if s[:16] == b'\xff' * 16 and len(s) > 19 and s[18] == 2 else None):
+            if body is None:
+                continue
+            try:
+                wd, attrs, nlri = wire.parse_update(body)
+            except ValueError:
+                continue
+            if len(attrs) >= 2 and len(set(a[1] for a in attrs)) == len(attrs):
+                out.append((body, attrs))
+    return out
+
+
+def task_corpus_perms(args):
+    from yabgp.message.update import Update
+    out = []
+    n = 0
+    classes = set()
+    for body, attrs in args:
+        wl = struct.unpack('!H', body[:2])[0]
+        al = struct.unpack('!H', body[2 + wl:4 + wl])[0]
+        head, tail = body[:2 + wl], body[4 + wl + al:]
+
+        def enc(order):
+            a = b''.join(upd.wrap_attr(f & 0xEF, c, v, bool(f & 0x10) or len(v) > 255) for f, c, v in order)
+            return head + struct.pack('!H', len(a)) + a + tail
+        if len(attrs) <= 5:
+            orders = list(itertools.permutations(attrs))
+        else:
+            orders = [attrs[k:] + attrs[:k] for k in range(len(attrs))] + [attrs[::-1]]
+        for asn4 in (True, False):
+            st, base, steps = budget.run(100000, Update.parse, None, enc(attrs), asn4)
+            if st != 'ok' or base.get('sub_error'):
+                continue
+            want = codec.norm(base['attr'])
+            for order in orders:
+                n += 1
+                st, got, steps = budget.run(100000, Update.parse, None, enc(list(order)), asn4)
+                codes = tuple(c for f, c, v in order)
+                if st != 'ok' or got.get('sub_error'):
+                    out.append(('C15|attribute-order|a unit-test UPDATE stops decoding when its attributes are reordered (codes %s)' % sorted(codes),
+                                {'order': codes, 'hex': enc(list(order)).hex(), 'asn4': asn4}))
+                    break
+                have = codec.norm(got['attr'])
+                if have != want:
+                    out.append(('C15|attribute-order|decoded attributes of a unit-test UPDATE depend on their order (codes %s: %s)'
+                                % (sorted(codes), codec.first_diff(want, have)), {'order': codes, 'hex': enc(list(order)).hex(), 'asn4': asn4}))
+                    break
+            classes.add(('corpus-perm', tuple(sorted(c for f, c, v in attrs))))
+    return n, out, classes
+
+
 def _dispatch(t):
-    return {'pairs': task_pairs, 'perms': task_perms}[t[0]](t[1])
+    return {'pairs': task_pairs, 'perms': task_perms, 'corpus': task_corpus_perms}[t[0]](t[1])
 
 
 def run(tier, seed):
@@ -292,6 +348,9 @@ def run(tier, seed):
     small = [s for s in subs if len(s) <= 5]
     for i in range(0, len(small), 60):
         tasks.append(('perms', small[i:i + 60]))
+    cu = corpus_updates()
+    for i in range(0, len(cu), 4):
+        tasks.append(('corpus', cu[i:i + 4]))
     res = explore.pmap(_dispatch, tasks, chunk=1)
     # rotations and reversal of the full 13-attribute message
     from yabgp.message.update import Update
@@ -326,7 +385,7 @@ def run(tier, seed):
                 'capabilities); all orders of every <= %d-subset of a 13-attribute UPDATE plus rotations / reversal of the full one. '
                 'distinct_nontrivial = distinct (kind, element widths)' % (len(sizes), 5 if tier == 'thorough' else 4),
         'samples': [{'kind': 'ipv6_prefix', 'a': '00', 'b': '00'}, {'kind': 'vpnv4', 'a': ep['vpnv4'][0].hex(), 'b': ep['vpnv4'][-1].hex()}],
-        'pool_sizes': sizes, 'exhaustive': True, 'violation_keys': summary,
+        'pool_sizes': sizes, 'unit_test_updates_permuted': len(cu), 'exhaustive': True, 'violation_keys': summary,
     }
     report.write_evidence(PROP, tier, seed, 'exploration', cov,
                           ['purely differential oracle: no reference decoder involved; element pools from the reference encoder (vf/ref) and, '
